@@ -112,6 +112,26 @@ func (o *c09) Step(r *StepRec) []Violation {
 			}
 		}
 	}
+	// contexts their module killed from inside a "cannot pay" notification of this step (its own and,
+	// where the module stops all its feeds, the siblings): completed from that moment on
+	killedAt := map[string]uint64{}
+	for _, cb := range r.CBs {
+		for _, kc := range cb.Killed {
+			killedAt[kc.Ctx] = kc.Counter
+			if kc.Ctx != cb.Ctx {
+				o.hit("sibling_killed_in_state_callback")
+			}
+			if p1, ok := post.Ctxs[kc.Ctx]; ok {
+				if p1.State != stCompleted {
+					o.fail("c09:kill_lost", "context %s was killed by its module inside a state callback, but is %s after %s", short(kc.Ctx), stateName(p1.State), a.Kind)
+				}
+				if p1.BatchCounter != kc.Counter {
+					o.fail("c09:batch_after_kill", "context %s was killed by its module at batch %d inside a state callback and is at batch %d after %s: a completed context was issued (or skipped) a batch",
+						short(kc.Ctx), kc.Counter, p1.BatchCounter, a.Kind)
+				}
+			}
+		}
+	}
 	ids := map[string]bool{}
 	for id := range pre.Ctxs {
 		ids[id] = true
@@ -164,6 +184,21 @@ func (o *c09) Step(r *StepRec) []Violation {
 			case p0.State == stRunning && p1.State == stPaused:
 				legal = (targeted && (a.Kind == KPause || a.Kind == KModPause) && p0.Repeated) ||
 					(a.Kind == KEndBlock && !p0.SuperMode && isCandidate(pre, r.Height, id))
+				if a.Kind == KEndBlock && legal && reacted[id] == "" && o.w.cfg.FundingPoint == nil {
+					// "a consumer's inability to pay a batch moves running to paused" - nothing else in an end-block does:
+					// the providers that qualify must cost more than the consumer holds when the block is over (during
+					// the issuing phase a balance only falls, so it held at least that much when it was asked to pay)
+					if el := eligible(p0, post, pre, r.TimeNs, o.w.cfg); !el.Unparsed {
+						bal := o.w.cfg.balIn(post, hx(p0.Consumer))
+						if qualifies := len(el.E) > 0 && len(el.E) >= int(p0.ResponseThreshold); !qualifies || el.Total <= bal {
+							o.fail("c09:paused_though_solvent", "context %s was paused by the end-block although its consumer can pay: qualifying providers cost %d, the consumer still holds %d (qualifies=%v)",
+								short(id), el.Total, bal, qualifies)
+						}
+						if el.Total == bal+1 || el.Total == bal {
+							o.hit("consumer_balance_at_the_price_pm1")
+						}
+					}
+				}
 				if a.Kind == KEndBlock {
 					o.hit("paused_by_end_block")
 					if o.w.cfg.Reactive && p0.ModuleName != "" && p0.Repeated {
@@ -172,8 +207,10 @@ func (o *c09) Step(r *StepRec) []Violation {
 					}
 				}
 			case a.Kind == KEndBlock && o.w.cfg.Reactive && p0.State == stRunning && p1.State == stCompleted:
-				// killed by its module from inside the "cannot pay" notification
-				legal = p0.ModuleName != "" && p0.Repeated && !p0.SuperMode && isCandidate(pre, r.Height, id)
+				// killed by its module from inside the "cannot pay" notification: its own, or (a module that
+				// stops all its feeds) that of a sibling
+				_, wasKilled := killedAt[id]
+				legal = p0.ModuleName != "" && p0.Repeated && (wasKilled || (!p0.SuperMode && isCandidate(pre, r.Height, id)))
 				o.hit("killed_by_module_in_state_callback")
 			case p0.State == stPaused && p1.State == stRunning:
 				legal = targeted && (a.Kind == KStart || a.Kind == KModStart)
@@ -215,7 +252,8 @@ func (o *c09) Step(r *StepRec) []Violation {
 			o.fail("c09:counter:"+a.Kind, "batch counter of %s decreased %d -> %d", short(id), p0.BatchCounter, p1.BatchCounter)
 		}
 		if p1.BatchCounter > p0.BatchCounter {
-			if p1.BatchCounter != p0.BatchCounter+1 || a.Kind != KEndBlock || p0.State != stRunning || p1.State != stRunning {
+			_, killedLater := killedAt[id] // issued its batch, then killed by its module later in the same block (checked above)
+			if p1.BatchCounter != p0.BatchCounter+1 || a.Kind != KEndBlock || p0.State != stRunning || (p1.State != stRunning && !(killedLater && p1.State == stCompleted)) {
 				o.fail("c09:counter:"+a.Kind, "batch counter of %s went %d -> %d in %s (state %s -> %s)", short(id), p0.BatchCounter, p1.BatchCounter, a.Kind, stateName(p0.State), stateName(p1.State))
 			}
 			o.hit("batch_started")
